@@ -207,6 +207,101 @@ pub struct Plan {
     /// recorders 0 and 1 (and 2 and 3) are two different recorders at one address
     #[serde(default)]
     pub aliased: bool,
+    /// thread-teardown episode after the simulated part (0 = none): bit 0 = the application's
+    /// thread-local is first touched before the thread's first emission (so, on glibc, its
+    /// destructor runs after everything the facade may have registered), bit 1 = it is first
+    /// touched after it, bit 2 = the thread also runs a local scope before it ends
+    #[serde(default)]
+    pub teardown: u8,
+}
+
+// ---------------------------------------------------------------------------------------------
+// Thread teardown: an application thread-local whose destructor emits (per-thread statistics
+// flushed at thread exit). No local scope can be live then, so the emission belongs to the global
+// recorder. Runs on a plain OS thread after the simulated part: what a thread does after its
+// closure has returned is outside any scheduler's control, and it has no interleaving in it — the
+// plan decides the one thing that matters, the order in which the thread-locals were first touched.
+
+static TD_GLOBAL: std::sync::atomic::AtomicU64 = std::sync::atomic::AtomicU64::new(0);
+static TD_LOCAL: std::sync::atomic::AtomicU64 = std::sync::atomic::AtomicU64::new(0);
+
+struct TdRec(&'static std::sync::atomic::AtomicU64);
+
+impl Recorder for TdRec {
+    fn describe_counter(&self, _: KeyName, _: Option<Unit>, _: SharedString) {}
+    fn describe_gauge(&self, _: KeyName, _: Option<Unit>, _: SharedString) {}
+    fn describe_histogram(&self, _: KeyName, _: Option<Unit>, _: SharedString) {}
+    fn register_counter(&self, k: &Key, _: &Metadata<'_>) -> Counter {
+        // one decimal digit per emission name so that the total tells which ones arrived
+        let w = match k.name() {
+            "td_live" => 1,
+            "td_scoped" => 10,
+            "td_exit" => 100,
+            _ => 1000,
+        };
+        self.0.fetch_add(w, std::sync::atomic::Ordering::SeqCst);
+        Counter::noop()
+    }
+    fn register_gauge(&self, _: &Key, _: &Metadata<'_>) -> Gauge {
+        Gauge::noop()
+    }
+    fn register_histogram(&self, _: &Key, _: &Metadata<'_>) -> Histogram {
+        Histogram::noop()
+    }
+}
+
+static TD_GLOBAL_REC: TdRec = TdRec(&TD_GLOBAL);
+static TD_LOCAL_REC: TdRec = TdRec(&TD_LOCAL);
+
+struct ExitStats(std::cell::Cell<bool>);
+
+impl Drop for ExitStats {
+    fn drop(&mut self) {
+        if self.0.get() {
+            counter!("td_exit").increment(1);
+        }
+    }
+}
+
+thread_local! {
+    static EXIT_STATS: ExitStats = ExitStats(std::cell::Cell::new(false));
+}
+
+/// Returns (class, detail) of a violation, and what was observed.
+fn teardown_episode(mode: u8) -> (Option<(String, String)>, String) {
+    use std::sync::atomic::Ordering::SeqCst;
+    metrics::__verif_reset_global_recorder();
+    TD_GLOBAL.store(0, SeqCst);
+    TD_LOCAL.store(0, SeqCst);
+    if metrics::set_global_recorder(&TD_GLOBAL_REC).is_err() {
+        return (Some(("global-install-none-won".into(), "teardown episode: set_global_recorder failed on a fresh cell".into())), String::new());
+    }
+    let h = std::thread::spawn(move || {
+        if mode & 1 != 0 {
+            EXIT_STATS.with(|e| e.0.set(true));
+        }
+        if mode & 4 != 0 {
+            metrics::with_local_recorder(&TD_LOCAL_REC, || counter!("td_scoped").increment(1));
+        }
+        counter!("td_live").increment(1);
+        if mode & 1 == 0 {
+            EXIT_STATS.with(|e| e.0.set(true));
+        }
+    });
+    let joined = h.join();
+    metrics::__verif_reset_global_recorder();
+    let (g, l) = (TD_GLOBAL.load(SeqCst), TD_LOCAL.load(SeqCst));
+    let obs = format!("teardown:{}:g{}:l{};", mode, g, l);
+    let want_l = if mode & 4 != 0 { 10 } else { 0 };
+    let v = if joined.is_err() {
+        Some(("panic".to_string(), format!("teardown episode (mode {}): the thread panicked", mode)))
+    } else if g != 101 || l != want_l {
+        let class = if g % 1000 / 100 == 0 { "teardown-emission-lost" } else { "teardown-emission-misrouted" };
+        Some((class.to_string(), format!("teardown episode (mode {}): the global recorder saw {} and the scoped one {} (digits: exit / scoped / live emissions); expected 101 and {} — an emission from a thread-local's destructor, with no scope live, belongs to the installed global recorder", mode, g, l, want_l)))
+    } else {
+        None
+    };
+    (v, obs)
 }
 
 struct Unwind;
@@ -531,7 +626,8 @@ impl Scenario for C01Scopes {
             })
             .collect();
         let aliased = r.chance(300);
-        Plan { nrec, threads, full, aliased }
+        let teardown = if r.chance(250) { [1u8, 2, 5, 6][r.range(0, 3) as usize] } else { 0 };
+        Plan { nrec, threads, full, aliased, teardown }
     }
     fn execute(&self, plan: &Plan, sched: &SchedSpec) -> RunReport {
         metrics::__verif_reset_global_recorder();
@@ -590,6 +686,18 @@ impl Scenario for C01Scopes {
         for e in l.iter() {
             obs.push_str(&format!("{}>{}:{}:{};", e.tid, e.rec, e.op, e.name));
         }
+        drop(l);
+        if plan.teardown != 0 {
+            let (tv, tobs) = teardown_episode(plan.teardown);
+            obs.push_str(&tobs);
+            rep.count("teardown_episodes", 1);
+            if v.is_none() {
+                if let Some((c, d)) = tv {
+                    v = violation(&c, d);
+                }
+            }
+        }
+        let l = log.lock().unwrap();
         rep.history_hash = crate::util::hash_str(&obs);
         rep.observations = obs;
         rep.count("emissions", *emitted.lock().unwrap());
@@ -637,6 +745,12 @@ impl Scenario for C01Scopes {
         let mut out = vec![];
         if p.aliased {
             out.push(Plan { aliased: false, ..p.clone() });
+        }
+        if p.teardown != 0 {
+            out.push(Plan { teardown: 0, ..p.clone() });
+            if p.teardown & 4 != 0 {
+                out.push(Plan { teardown: p.teardown & 3, ..p.clone() });
+            }
         }
         if p.threads.len() > 1 {
             for i in 0..p.threads.len() {
